@@ -652,7 +652,9 @@ fn session_grid(thorough: bool) -> Vec<Case> {
                                                 s.groups = if nobj == 2 { Some(vec!["sg".into()]) } else { None };
                                                 let mut objs = Vec::new();
                                                 for j in 0..nobj {
-                                                    let mut o = ObjSpec::simple(len + j, 10 + j as u8);
+                                                    // the third object of a three-object session is EMPTY (every writer kind, source kind and
+                                                    // content encoding meets an empty object)
+                                                    let mut o = ObjSpec::simple(if nobj == 3 && j == 2 { 0 } else { len + j }, 10 + j as u8);
                                                     o.oti = Some(oti.clone());
                                                     o.prio = (j % nq) as u32;
                                                     o.count = count;
